@@ -114,18 +114,18 @@ PROPS.update({
         "title": "Compression keeps the message, stays valid and never grows the packet",
         "units": ["U7", "U1"],
         "cone": {"U1": [r"DNSSector::(parse|parse_rr|parse_opt|parse_question|new)$"],
-                 "U7": [r"Compress::(compress|compress_rdata|copy_compressed_name|copy_compressed_name_with_base_offset|indirections|raw_name_len|raw_name_len_after_decompression)$", r"SuffixDict::", r"Default for Suffix", r"spec/(dict|ptr|rename|locality|names|pfpacket|reader|iter)\\.rs", r"ResponseIterator::", r"QuestionIterator::", r"ParsedPacket::into_iter_"]},
+                 "U7": [r"Compress::(compress|compress_rdata|copy_compressed_name|copy_compressed_name_with_base_offset|indirections|raw_name_len|raw_name_len_after_decompression)$", r"SuffixDict::", r"Default for Suffix", r"spec/(dict|ptr|cacc|rename|locality|names|pfpacket|reader|iter)\\.rs", r"ResponseIterator::", r"QuestionIterator::", r"ParsedPacket::into_iter_"]},
         "witness": ("c06", 12000),
         "level": "proof", "design_ref": "DESIGN.md section 5 C06",
         "assumptions": U1_ASSUME + ["#[derive(Default)] on SuffixDict yields count == 0 and index == 0 (assumed specification of the derived impl)",
                                      "units with iterator client loops are verified with --no-lifetime"],
-        "level_text": "PARTIAL proof: (F1) representation invariant of the suffix dictionary, (F2) insert against the abstract view (hit: some live entry equals the suffix up to ASCII case, nothing changes; miss: exactly slot `index` is replaced, every other slot untouched), (F3) the offset remembered for a suffix is its position in the OUTPUT, (F4) what the name emitter appends is whole labels followed by nothing or one pointer below 0x4000 that stands for at least 3 bytes, (F5) a compressed name/record/packet is never longer than the original, (F6) every record of every section is re-emitted, OPT included, (F7) the RDLENGTH written back equals the data bytes emitted, (F8) 'every pointer it emits designates, in the output, the suffix it stands for': the invariant dict_ok (every live dictionary entry designates, in the output, a valid name equal to its suffix up to ASCII case) holds from SuffixDict::new() to the end of compress(): the name emitter keeps it (pending-entry invariant of its loop; a hit can only be an entry that was faithful at entry), Compress::indirections is proved to return exactly the number of pointers the parser follows, appends keep it (walk transport lemma), and so does the RDLENGTH fix-up of compress_rdata (no name designated by the dictionary reads those two bytes: window lemmas of spec/ptr.rs); consequently every name compress() writes -- question, owner names, NS/CNAME/PTR/MX targets, both SOA names -- is asserted, at the place it is emitted, to be valid under the parser's name rule (at most 16 pointers, strictly backward, at most 255 bytes) and to decode in the output to the input name up to ASCII case; compress() succeeds exactly on accepted packets and copies the header. NOT proved by contracts: that the result as a whole is accepted by the parser (the names, counts, RDLENGTHs and the record sequence are each proved, their assembly into rr_spec of the output is not), and message equality as one statement -- these clauses are exercised by the differential replay (compress, re-parse, compare, decompress)",
+        "level_text": "(F1) representation invariant of the suffix dictionary, (F2) insert against the abstract view (hit: some live entry equals the suffix up to ASCII case, nothing changes; miss: exactly slot `index` is replaced, every other slot untouched), (F3) the offset remembered for a suffix is its position in the OUTPUT, (F4) what the name emitter appends is whole labels followed by nothing or one pointer below 0x4000 that stands for at least 3 bytes, (F5) a compressed name/record/packet is never longer than the original, (F6) every record of every section is re-emitted, OPT included, (F7) the RDLENGTH written back equals the data bytes emitted, (F8) 'every pointer it emits designates, in the output, the suffix it stands for': the invariant dict_ok (every live dictionary entry designates, in the output, a valid name equal to its suffix up to ASCII case) holds from SuffixDict::new() to the end of compress(): the name emitter keeps it (pending-entry invariant of its loop; a hit can only be an entry that was faithful at entry), Compress::indirections is proved to return exactly the number of pointers the parser follows, appends keep it (walk transport lemma), and so does the RDLENGTH fix-up of compress_rdata (no name designated by the dictionary reads those two bytes: window lemmas of spec/ptr.rs); consequently every name compress() writes -- question, owner names, NS/CNAME/PTR/MX targets, both SOA names -- is asserted, at the place it is emitted, to be valid under the parser's name rule (at most 16 pointers, strictly backward, at most 255 bytes) and to decode in the output to the input name up to ASCII case; (F9) 'compression succeeds and returns an accepted packet': compress(p).is_ok() <==> wf_packet(p), and r matches Ok(c) ==> wf_packet(c) -- every record written is proved to be a record the parser accepts (compress_rdata: out_rdata per record type, incl. the verbatim option list of OPT and the pointer-free name of DNAME; lemma_out_record), the sections are assembled record by record (lemma_rrs_append, stability under growth: lemma_rr_spec_ext / lemma_rrs_ext), OPT at most once with a one-byte root owner, question class and header policy from the copied header (lemma_accept); the header is copied. NOT proved by contracts: message equality as one statement (each name is proved equal up to case at the place it is written and every non-name field is proved copied, but the decode of the whole output is not re-assembled), and 'decompressing the result gives back the input' -- these clauses are exercised by the differential replay (compress, re-parse, compare, decompress)",
         "technique": "Verus data-structure invariant + view-based postconditions for the dictionary; frame/length/count contracts for the emitter and the section loops; remaining clauses by differential replay (stated)",
     },
     "C07": {
         "title": "Renaming rewrites exactly the matching names and nothing else",
         "units": ["U8"],
-        "cone": [r"Renamer::", r"spec/(rename|dict|ptr|locality|names)\\.rs", r"Compress::(copy_compressed_name|copy_compressed_name_with_base_offset|copy_uncompressed_name|indirections|raw_name_len)$", r"SuffixDict::", r"ResponseIterator::", r"QuestionIterator::", r"ParsedPacket::(into_iter_|copy_header)"],
+        "cone": [r"Renamer::", r"spec/(rename|dict|ptr|cacc|locality|names)\\.rs", r"Compress::(copy_compressed_name|copy_compressed_name_with_base_offset|copy_uncompressed_name|indirections|raw_name_len)$", r"SuffixDict::", r"ResponseIterator::", r"QuestionIterator::", r"ParsedPacket::(into_iter_|copy_header)"],
         "witness": ("c07", 12000),
         "level": "proof", "design_ref": "DESIGN.md section 5 C07",
         "assumptions": ["source and target are well-formed pointer-free names under the parser's character policy (is_cname), both non-root: the property's quantifier",
